@@ -293,6 +293,52 @@ def _same_value(a, b) -> bool:
     return a == b
 
 
+def requested_number(index: RepoIndex, rep, rule: str, f, pname: str) -> None:
+    """the count parameter reaches its use as given: every re-binding of it either keeps the
+    value of every non-negative integer request (`int(n)`, a conversion) or happens under a
+    condition no integer request satisfies.  Conditions and values are evaluated over the
+    requests 0..8 (extracted expressions, never the code)."""
+    from ..guards import show, strip_iter, walk_function
+    from ..inteval import CannotEval, ev
+    w = walk_function(f.node)
+    defs = [d for d in w.defs.get(pname, [])]
+
+    def call(e, env):
+        fs = src(e.func)
+        if fs in ('int', 'round') and len(e.args) == 1:
+            return int(round(ev(e.args[0], env, call)))
+        if fs == 'float' and len(e.args) == 1:
+            return ev(e.args[0], env, call)
+        if fs == 'len':
+            return env.get('<len>', 7)
+        return NotImplemented
+    bad = None
+    for d in defs:
+        if d[0] != 'value':
+            bad = (None, f'`{pname}` is re-bound by unpacking / iteration')
+            break
+        try:
+            gexpr = ast.parse(show(w.expand_formula(strip_iter(d[3]), stop=[pname])),
+                              mode='eval').body if d[3] != ('true',) else ast.Constant(True)
+        except SyntaxError:
+            raise AnalysisError(f'{f.name}: guard of the re-binding of `{pname}` outside the '
+                                f'grammar')
+        for k in range(0, 9):
+            try:
+                if ev(gexpr, {pname: k}, call) and ev(d[1], {pname: k}, call) != k:
+                    bad = (k, f'a request of {k} becomes `{src(d[1])[:60]}`')
+                    break
+            except CannotEval as ex:
+                raise AnalysisError(f'{f.name}: re-binding of `{pname}` outside the grammar: '
+                                    f'{ex}')
+        if bad:
+            break
+    rep.check(bad is None, rule, RESET, f.name, f.node.lineno,
+              '; '.join(src(d[1])[:60] for d in defs if d[0] == 'value') or pname,
+              f'{f.name} does not use the requested `{pname}` as given: '
+              f'{bad[1] if bad else ""}', f'{f.name}: {pname} used as given')
+
+
 def run(index: RepoIndex, rep) -> None:
     rep.rule('C13.R6', 'row and column quantities are not exchanged in the reset functions and the drawing helpers (axis typing, E14)', floor=1)
     from ..axes import axis_rule
@@ -594,6 +640,7 @@ def inventory(index, rep, rule, resets, runs) -> None:
         rep.check(len(writes_of(cx, 'Exit')) == 1, rule, RESET, 'dynamic_obstacles',
                   resets['dynamic_obstacles'].node.lineno, 'exit', 'not exactly one exit',
                   f'dynamic_obstacles[{path}]: one exit')
+    requested_number(index, rep, rule, resets['dynamic_obstacles'], 'num_obstacles')
     for cx in runs['keydoor']:
         doors, keys = writes_of(cx, 'Door'), writes_of(cx, 'Key')
         f = resets['keydoor']
